@@ -584,4 +584,59 @@ theorem fullExpand_joined (env : Env) (opts : Opts) (names : List Str) (h : ' ' 
     rw [this, fullExpand_space env opts names h, ih y, seqAppend_nest]
     rfl
 
+/-! ## the tilde-prefix rule on joined words -/
+
+theorem isTilde_iff (p : WP) : isTilde p = true ↔ p = WP.plain (.base .tilde) := by
+  constructor
+  · intro h
+    cases p with
+    | dq as => simp [isTilde] at h
+    | plain a =>
+      cases a with
+      | op _ _ _ _ => simp [isTilde] at h
+      | base a0 => cases a0 <;> simp [isTilde] at h ⊢
+  · intro h; subst h; rfl
+
+theorem untildeAll_append (a b : Word) : untildeAll (a ++ b) = untildeAll a ++ untildeAll b := by
+  simp [untildeAll]
+
+theorem untildeAll_joined (r : List Word) :
+    untildeAll (r.flatMap fun y => WP.plain (.base (.text [' '])) :: y) =
+      r.flatMap fun y => WP.plain (.base (.text [' '])) :: untildeAll y := by
+  induction r with
+  | nil => rfl
+  | cons y r ih =>
+    simp only [List.flatMap_cons, untildeAll_append, ih]
+    simp [untildeAll, isTilde]
+
+theorem tildeFollowOk_cons_append (t : List Char) (q : WP) (a z : Word) :
+    tildeFollowOk t (q :: a ++ z) = tildeFollowOk t (q :: a) := by
+  cases q with
+  | dq as => rfl
+  | plain x =>
+    cases x with
+    | op _ _ _ _ => rfl
+    | base a0 =>
+      cases a0 with
+      | text s => cases s <;> rfl
+      | _ => rfl
+
+/-- the tilde decision of a word is not affected by what is appended to it — unless the word is `~` alone -/
+theorem tildeFix_append (t : List Char) (x z : Word) (hne : x ≠ []) (h1 : x ≠ [WP.plain (.base .tilde)]) :
+    tildeFix t (x ++ z) = tildeFix t x ++ untildeAll z := by
+  cases x with
+  | nil => exact absurd rfl hne
+  | cons p x' =>
+    cases x' with
+    | nil =>
+      have hp : isTilde p = false := by
+        cases h : isTilde p with
+        | false => rfl
+        | true => exact absurd (by rw [(isTilde_iff p).mp h]) h1
+      simp [tildeFix, hp, untildeAll]
+    | cons q x'' =>
+      simp only [List.cons_append, tildeFix, untildeAll_append]
+      rw [show q :: (x'' ++ z) = q :: x'' ++ z from rfl, tildeFollowOk_cons_append]
+      simp [untildeAll]
+
 end BrushVerif.Expand
